@@ -392,7 +392,14 @@ def wrapper(run, table, rng, thorough):
             recs.append({"k": "M", "f": list(m0), "t": list(m), "m": ["mass", "g"]}); keys.append(("M", ni, m))
             for l in L:
                 recs.append({"k": "L", "f": list(l0), "t": list(l), "m": list(m)}); keys.append(("L", ni, l, m))
+    # the isotherm's temperature may be stored in degC: the model must be used at the kelvin temperature
+    recs.append({"k": "T", "f": ["x", "°C"], "t": ["x", "K"], "m": ["x", "x"]}); keys.append(("T",))
     ans = tlc.oracle("UnitsOracle", recs, timeout=600)
+    tk = [x["k"] for x in ans[-1]["allowed"] if x["kind"] == "val"]
+    if len(tk) != 1:
+        raise MachineryError("unit specification gives no unique kelvin offset for degC")
+    temps = [("K", temp), ("°C", temp - tk[0] * 273.15)]
+    recs, keys, ans = recs[:-1], keys[:-1], ans[:-1]
     factor = {}
     for key, a in zip(keys, ans):
         vals = [x for x in a["allowed"] if x["kind"] == "val"]
@@ -400,22 +407,29 @@ def wrapper(run, table, rng, thorough):
     models = [("Langmuir", {"K": [7, 5], "n_m": [17, 5]}, [0.05, 0.4, 2.5]),
               ("Toth", {"n_m": [17, 5], "K": [13, 2], "t": [3, 4]}, [0.02, 0.3, 1.7]),
               ("BET", {"n_m": [3, 4], "C": [80, 1], "N": [2, 5]}, [0.05, 0.5, 1.2]),
-              ("FHVST", {"n_m": [17, 5], "K": [7, 5], "a1v": [1, 2]}, [0.1, 0.9, 4.0])]
+              ("FHVST", {"n_m": [17, 5], "K": [7, 5], "a1v": [1, 2]}, [0.1, 0.9, 4.0]),
+              # the two models whose equation contains the temperature (RT ln p)
+              ("DR", {"n_m": [17, 5], "e": [1500, 1]}, [0.1, 0.4, 0.9]),
+              ("DA", {"n_m": [17, 5], "e": [1500, 1], "m": [5, 2]}, [0.1, 0.4, 0.9])]
     done = 0
     for model, par, pnat in models:
-        for ni, (p0, l0, m0) in enumerate(natives):
+      for ni, (p0, l0, m0) in enumerate(natives):
+        for tunit, tval in temps:
+            # the bare model equation at the isotherm's temperature in kelvin
             bare = build(model, par)
+            bare.__init_parameters__({"temperature": temp})
             iso = pygaps.ModelIsotherm(
                 model=build(model, par), material={"name": "verif_mat_c10", "density": 1.737, "molar_mass": 419.3},
-                adsorbate="nitrogen", temperature=temp,
+                adsorbate="nitrogen", temperature=tval, temperature_unit=tunit,
                 pressure_mode=p0[0], pressure_unit=dec(p0[1]), loading_basis=l0[0], loading_unit=dec(l0[1]),
                 material_basis=m0[0], material_unit=dec(m0[1]))
+            route = "ready-made model, temperature stored in " + tunit
             pn = numpy.array(pnat)
             nn = numpy.asarray(bare.loading(pn), dtype=float).ravel()
-            configs = [(p, l0, m0) for p in P] + [(p0, l, m) for m in mats for l in L]
+            configs = [(p, l0, m0) for p in P] + ([(p0, l, m) for m in mats for l in L] if tunit == "K" else [])
             extra = [(p, l, m) for p in P for m in mats for l in L]
             rng.shuffle(extra)
-            configs += extra[: (600 if thorough else 120)]
+            configs += extra[: ((600 if thorough else 120) if tunit == "K" else 40)]
             for (p, l, m) in configs:
                 fp, fm, fl = factor[("P", ni, p)], factor[("M", ni, m)], factor[("L", ni, l, m)]
                 if None in (fp, fm, fl):
@@ -432,7 +446,7 @@ def wrapper(run, table, rng, thorough):
                         run.count(("wrap", model, ni, fn, p, l, m, form), nontrivial=not trivial)
                         done += 1
                         changed = "+".join(w for w, x, y in (("pressure", p, p0), ("loading", l, l0), ("material", m, m0)) if x != y) or "nothing"
-                        sig = {"site": site, "clause": "wrapper", "form": form, "requested_differs_in": changed}
+                        sig = {"site": site, "clause": "wrapper", "form": form, "requested_differs_in": changed, "isotherm": route}
                         detail = {"model": model, "parameters": fpar(par), "native_units": [p0, l0, m0], "requested": kw, "argument": a,
                                   "expected": e, "unit_factors": {"pressure": fp, "material": fm, "loading": fl}}
                         try:
@@ -449,6 +463,47 @@ def wrapper(run, table, rng, thorough):
                         if o.shape != numpy.shape(e) or not numpy.all(numpy.isfinite(o)) or \
                                 not numpy.allclose(o, e, rtol=TOL["root"] if model == "FHVST" else TOL["closed"], atol=0):
                             run.violation({**sig, "observed": "differs from bare model after unit conversion"}, {**detail, "returned": o})
+    # the fitted route: the isotherm builds its own model from data; afterwards it must answer like the bare model with the
+    # fitted parameters at the kelvin temperature (relative pressure, temperature stored in K and in degC)
+    from pygaps.modelling import get_isotherm_model
+    p0 = ("relative", "none")
+    for model, par, _ in [m for m in models if m[0] in ("DR", "DA", "Langmuir")]:
+        for tunit, tval in temps:
+            src = build(model, par)
+            src.__init_parameters__({"temperature": temp})
+            ps = numpy.linspace(0.04, 0.96, 14)
+            ns = numpy.asarray(src.loading(ps), dtype=float)
+            try:
+                iso = pygaps.ModelIsotherm(pressure=ps, loading=ns, model=model, material={"name": "verif_mat_c10", "density": 1.737, "molar_mass": 419.3},
+                                           adsorbate="nitrogen", temperature=tval, temperature_unit=tunit, pressure_mode="relative", pressure_unit=None,
+                                           loading_basis="molar", loading_unit="mmol", material_basis="mass", material_unit="g")
+            except Exception as ex:  # noqa: BLE001
+                if exc_class(ex) == "CalculationError":
+                    run.add("wrapper_fit_failed")
+                    continue
+                raise
+            bare = get_isotherm_model(model, parameters={k: float(v) for k, v in iso.model.params.items()})
+            bare.__init_parameters__({"temperature": temp})
+            pq = numpy.array([0.07, 0.33, 0.81])
+            nq = numpy.asarray(bare.loading(pq), dtype=float)
+            route = "fitted model, temperature stored in " + tunit
+            for p in P:
+                fp = factor[("P", 1, p)]
+                kw = dict(pressure_mode=p[0], pressure_unit=dec(p[1]))
+                for fn, arg, exp, site in (("loading_at", pq * fp, nq, "ModelIsotherm.loading_at"), ("pressure_at", nq, pq * fp, "ModelIsotherm.pressure_at")):
+                    run.count(("wrap-fitted", model, tunit, fn, p), nontrivial=True)
+                    done += 1
+                    sig = {"site": site, "clause": "wrapper", "form": "1d", "requested_differs_in": "pressure" if p != p0 else "nothing", "isotherm": route}
+                    detail = {"model": model, "fitted_parameters": dict(iso.model.params), "requested": kw, "argument": arg, "expected": exp,
+                              "temperature": [tval, tunit]}
+                    try:
+                        out = numpy.asarray(getattr(iso, fn)(arg, **kw), dtype=float).ravel()
+                    except Exception as ex:  # noqa: BLE001
+                        c = exc_class(ex)
+                        run.violation({**sig, "observed": ("refused:" if c in ("ParameterError", "CalculationError") else "exception:") + c}, {**detail, "message": str(ex)[:200]})
+                        continue
+                    if out.shape != exp.shape or not numpy.allclose(out, exp, rtol=TOL["closed"], atol=0):
+                        run.violation({**sig, "observed": "differs from bare model after unit conversion"}, {**detail, "returned": out})
     run.set(wrapper_evaluations=done)
     run.sample({"kind": "wrapper configuration", "model": models[1][0], "native": natives[1], "requested": configs[-1]})
 
@@ -523,7 +578,8 @@ def main(tier, seed):
                  "(b4) integer-typed input: whole-number arguments chosen by the specification inside each function's domain, as Python int, numpy.int64, 0-d / 1-d integer arrays, integer "
                  "Series (and lists of ints through ModelIsotherm), judged against the float input of equal value; (b5) magnitudes: the same isotherm in pressure units 10^e apart "
                  "(e in -6, -3, 3, 7: affinity constants from 1e-6 to 1e7, pressures ~ 1/K), full relational contract at every magnitude; "
-                 "(c) ModelIsotherm.loading_at/pressure_at for 4 models x 2 native unit systems x requested pressure/loading/material representations. "
+                 "(c) ModelIsotherm.loading_at/pressure_at for 6 models (incl. DR/DA, whose equation holds the temperature) x 2 native unit systems x temperature stored in K / degC x requested "
+                 "pressure/loading/material representations, ready-made model and fitted route, against the bare model equation at the kelvin temperature. "
                  "non-trivial = not the zero row / not the native representation; distinct = distinct (part, model, parameters, form, function, row)")
     run.assume("the model equations transcribed in spec/Models.tla (from the formula/docstring of each model class) are the reference for 'the model'")
     run.assume("DecFloat arithmetic in the specification carries 2e-7 relative error per operation: in-spec tolerances are 1e-6 (1e-2 Virial, 1e-4 Henry slope); "
